@@ -203,6 +203,8 @@ def appendConfig (cf : Cfg) (a : Acc) (id : Nat) (ch : CF.Change) (fail : Bool) 
     let idx := lastIndex a.v + 1
     let r := dispatch cf a [(id, 5, 0, c')] fail
     let a1 := r.1
+    -- an entry that could not be stored is in no log: its configuration is not adopted
+    if r.2 then a1 else
     { a1 with v := { a1.v with latest := c', latestIdx := idx },
               lead := restartPeers { a1.lead with cm := CM.setConfiguration a1.lead.cm (voterIds c') } c' }
 
